@@ -1,9 +1,13 @@
-import Log4rsModel.Routing.LemmasBuild
+import Log4rsModel.Routing.LemmasChain
 /-
 C01 — Routing delivers each record to exactly the appenders of its logger chain.
 Only property theorems and non-vacuity examples live here; helpers are in Routing/Lemmas*.lean.
-`deliver` (Routing/Tree.lean) is the model of `Logger::new` + `Log::log`; `none` would be a panic of
-`appender_map[..]`. `specDeliver` (Routing/Spec.lean) is the statement.
+
+* `deliver` (Routing/Tree.lean) is the model of `Logger::new` + `Log::log`: `none` would be a panic
+  (`appender_map[..]` at construction or `appenders[idx]` at delivery) — the theorems show `some`.
+* `specDeliver` (Routing/Spec.lean) is the statement as a program; the theorems of the first section say what its
+  ingredients (`comps`, `admits`, `effective`, `parent`, `chain`) are, without reference to any program.
+* hypothesis `Valid cfg` = what `ConfigBuilder::build{,_lossy}` guarantees (C13; composed in Properties/Compose.lean).
 -/
 namespace Log4rs.Routing.Tree
 open Log4rs
@@ -15,48 +19,111 @@ theorem C01_deliver_eq_spec (cfg : Config) (hv : Valid cfg) (t : Name) (lvl : Na
     deliver cfg t lvl = some (specDeliver cfg t lvl) :=
   deliver_eq_spec cfg hv t lvl
 
+/-! ### what the specification's words mean (no reference to the tree) -/
+
 /-- The specification's `effective` really is the configured logger with the longest component-wise
 prefix (and `none`, the root, exactly when no configured name is a component prefix). -/
 theorem C01_effective_longest (cfg : Config) (t : Name) :
     match effective cfg t with
     | some l => l ∈ cfg.loggers ∧ comps l.name <+: comps t ∧
         ∀ l' ∈ cfg.loggers, comps l'.name <+: comps t → (comps l'.name).length ≤ (comps l.name).length
-    | none => ∀ l ∈ cfg.loggers, ¬ comps l.name <+: comps t := by
-  unfold effective
-  generalize comps t = p
-  induction p using snoc_induction with
-  | hnil =>
-    rw [effectiveAt_nil]
-    intro l _ h
-    exact comps_ne_nil l.name (List.prefix_nil.mp h)
-  | hsnoc p c ih =>
-    rw [effectiveAt_concat]
-    cases hl : lookupLogger cfg.loggers (p ++ [c]) with
-    | some l =>
-      have hc := lookupLogger_comps hl
-      refine ⟨List.mem_of_find?_eq_some hl, hc ▸ List.prefix_refl _, ?_⟩
-      intro l' _ hp
-      rw [hc]; exact hp.length_le
-    | none =>
-      have hno : ∀ l ∈ cfg.loggers, comps l.name ≠ p ++ [c] := by
-        intro l hm
-        have := List.find?_eq_none.mp hl l hm
-        simpa using this
-      simp only
-      cases he : effectiveAt cfg.loggers p with
-      | some l =>
-        rw [he] at ih
-        refine ⟨ih.1, ih.2.1.trans (List.prefix_append _ _), ?_⟩
-        intro l' hm hp
-        rcases List.prefix_concat_iff.mp hp with h1 | h1
-        · exact absurd h1 (hno l' hm)
-        · exact ih.2.2 l' hm h1
-      | none =>
-        rw [he] at ih
-        intro l hm hp
-        rcases List.prefix_concat_iff.mp hp with h1 | h1
-        · exact hno l hm h1
-        · exact ih l hm h1
+    | none => ∀ l ∈ cfg.loggers, ¬ comps l.name <+: comps t :=
+  effectiveAt_spec cfg.loggers (comps t)
+
+/-- "the" longest-prefix logger: in a valid configuration two configured loggers that are component prefixes
+of the same path and have the same number of components are the same logger. -/
+theorem C01_effective_unique (cfg : Config) (hv : Valid cfg) (p : List Name) (l l' : LoggerCfg)
+    (hl : l ∈ cfg.loggers) (hl' : l' ∈ cfg.loggers) (hp : comps l.name <+: p) (hp' : comps l'.name <+: p)
+    (hlen : (comps l.name).length = (comps l'.name).length) : l = l' :=
+  effective_unique cfg hv p l l' hl hl' hp hp' hlen
+
+/-- The specification's `parent` is the configured logger with the longest *proper* component prefix of the
+logger's name (`none`, the root, when there is none). Implied (unconfigured) intermediates are transparent. -/
+theorem C01_parent_longest_proper (cfg : Config) (l : LoggerCfg) :
+    match parent cfg l with
+    | some q => q ∈ cfg.loggers ∧ comps q.name <+: comps l.name ∧ comps q.name ≠ comps l.name ∧
+        ∀ q' ∈ cfg.loggers, comps q'.name <+: comps l.name → comps q'.name ≠ comps l.name →
+          (comps q'.name).length ≤ (comps q.name).length
+    | none => ∀ q ∈ cfg.loggers, comps q.name <+: comps l.name → comps q.name = comps l.name := by
+  have h := effectiveAt_spec cfg.loggers (comps l.name).dropLast
+  have hne := comps_ne_nil l.name
+  unfold parent
+  cases he : effectiveAt cfg.loggers (comps l.name).dropLast with
+  | some q =>
+    rw [he] at h
+    obtain ⟨h1, h2, h3⟩ := h
+    have := (prefix_dropLast_iff _ _ hne).mp h2
+    refine ⟨h1, this.1, this.2, ?_⟩
+    intro q' hq' hp hn
+    exact h3 q' hq' ((prefix_dropLast_iff _ _ hne).mpr ⟨hp, hn⟩)
+  | none =>
+    rw [he] at h
+    intro q hq hp
+    apply Classical.byContradiction
+    intro hn
+    exact h q hq ((prefix_dropLast_iff _ _ hne).mpr ⟨hp, hn⟩)
+
+/-- `chain` is nothing but the attachments of the visited loggers, concatenated in walk order. -/
+theorem C01_chain_is_visited (cfg : Config) (t : Name) :
+    chain cfg (comps t).length (effective cfg t) =
+      ((visited cfg (comps t).length (effective cfg t)).map (attached cfg)).flatten :=
+  chain_is_visited cfg _ _
+
+/-- Shape of the walk for any target: it starts at the effective logger; every step goes from an *additive*
+logger to its parent (the chain is unbroken); it ends at the root, or at the first non-additive logger. -/
+theorem C01_visited_shape (cfg : Config) (t : Name) :
+    let v := visited cfg (comps t).length (effective cfg t)
+    v.head? = some (effective cfg t) ∧
+    (∀ i a b, v[i]? = some a → v[i + 1]? = some b → ∃ l, a = some l ∧ l.additive = true ∧ b = parent cfg l) ∧
+    (v.getLast? = some none ∨ ∃ l, v.getLast? = some (some l) ∧ l.additive = false) :=
+  visited_shape cfg _ _ (fun _ h => effectiveAt_length h)
+
+/-- "Each attachment along that chain produces exactly one delivery and no other appender sees the record":
+an appender is delivered to as many times as it is attached along the walk — zero for every other appender. -/
+theorem C01_deliveries_count (cfg : Config) (hv : Valid cfg) (t : Name) (lvl : Nat) (a : Name) :
+    ∃ ds, deliver cfg t lvl = some ds ∧
+      ds.count a = if admits (specLevel cfg t) lvl
+        then ((visited cfg (comps t).length (effective cfg t)).map fun v => (attached cfg v).count a).sum
+        else 0 := by
+  refine ⟨_, deliver_eq_spec cfg hv t lvl, ?_⟩
+  unfold specDeliver
+  split
+  · rw [C01_chain_is_visited, List.count_flatten, List.map_map]; rfl
+  · simp
+
+/-- The bound in `chain` (the number of components of the target) never cuts a chain: any larger bound gives
+the same list. -/
+theorem C01_chain_fuel (cfg : Config) (t : Name) (n : Nat) (hn : (comps t).length ≤ n) :
+    chain cfg n (effective cfg t) = chain cfg (comps t).length (effective cfg t) :=
+  chain_fuel cfg (comps t) n _ hn (Nat.le_refl _)
+
+/-- `comps` — the specification's (and the model's) reading of "'::'-separated" — splits at the *leftmost*
+occurrences of `"::"`: joining the components with `"::"` gives the text back, no component contains `"::"`,
+and no component before a separator ends in a colon. -/
+theorem C01_comps_char (s : Name) :
+    joinC (comps s) = s ∧ (∀ c ∈ comps s, NoSep c) ∧ (∀ c ∈ (comps s).dropLast, c.getLast? ≠ some ':') :=
+  comps_char s
+
+/-- … and that determines it: any such decomposition of `s` is `comps s`. -/
+theorem C01_comps_unique (s : Name) (cs : List Name) (hne : cs ≠ []) (h : joinC cs = s)
+    (h1 : ∀ c ∈ cs, NoSep c) (h2 : ∀ c ∈ cs.dropLast, c.getLast? ≠ some ':') : cs = comps s :=
+  comps_unique s cs hne h h1 h2
+
+/-- `admits` — the specification's (and the model's) reading of "threshold admitting L" — is `L ≤ threshold`
+in the numbering Off=0 < Error=1 < Warn=2 < Info=3 < Debug=4 < Trace=5 (all naturals, hence the whole table). -/
+theorem C01_admits_iff (threshold lvl : Nat) : admits threshold lvl = true ↔ lvl ≤ threshold := by
+  simp [admits]
+
+/-! ### independence of declaration order -/
+
+/-- permuting the logger list and the appender table keeps a configuration valid -/
+theorem C01_valid_perm (cfg : Config) (hv : Valid cfg) (ls' : List LoggerCfg) (tbl' : List Name)
+    (h1 : cfg.loggers.Perm ls') (h2 : cfg.appenders.Perm tbl') :
+    Valid { cfg with loggers := ls', appenders := tbl' } := by
+  obtain ⟨v1, v2, v3, v4⟩ := hv
+  exact ⟨h2.nodup_iff.mp v1, ((h1.map _).nodup_iff).mp v2,
+    fun l hl => ⟨(v3 l (h1.mem_iff.mpr hl)).1, fun a ha => h2.mem_iff.mp ((v3 l (h1.mem_iff.mpr hl)).2 a ha)⟩,
+    fun a ha => h2.mem_iff.mp (v4 a ha)⟩
 
 /-- The outcome does not depend on the order in which loggers were declared. -/
 theorem C01_perm_loggers (cfg : Config) (hv : Valid cfg) (ls' : List LoggerCfg)
@@ -93,6 +160,36 @@ theorem C01_perm_appenders (cfg : Config) (hv : Valid cfg) (tbl' : List Name)
   simp only [Prod.mk.injEq] at h
   simp only [specDeliver, specLevel_eq, effective, h.1, h.2]
 
+/-- Both at once: any reordering of the declared loggers together with any reordering of the appender table. -/
+theorem C01_perm_config (cfg : Config) (hv : Valid cfg) (ls' : List LoggerCfg) (tbl' : List Name)
+    (h1 : cfg.loggers.Perm ls') (h2 : cfg.appenders.Perm tbl') (t : Name) (lvl : Nat) :
+    deliver { cfg with loggers := ls', appenders := tbl' } t lvl = deliver cfg t lvl := by
+  have hv1 : Valid { cfg with loggers := ls' } := by
+    have := C01_valid_perm cfg hv ls' cfg.appenders h1 (List.Perm.refl _)
+    exact this
+  have e1 := C01_perm_appenders { cfg with loggers := ls' } hv1 tbl' h2 t lvl
+  have e2 := C01_perm_loggers cfg hv ls' h1 t lvl
+  exact e1.trans e2
+
+/-- Reordering the attachment list *inside* the root or inside a logger changes the order of the calls but not
+which appender is called how often: the deliveries are a permutation of each other. -/
+theorem C01_perm_attachments (cfg cfg' : Config) (hv : Valid cfg) (hv' : Valid cfg') (h : AttachPerm cfg cfg')
+    (t : Name) (lvl : Nat) :
+    ∃ a b, deliver cfg t lvl = some a ∧ deliver cfg' t lvl = some b ∧ a.Perm b := by
+  refine ⟨_, _, deliver_eq_spec cfg hv t lvl, deliver_eq_spec cfg' hv' t lvl, ?_⟩
+  obtain ⟨_, hl, hr, hls⟩ := h
+  have h1 := res_eq_spec cfg (comps t) (comps t).length (Nat.le_refl _)
+  have h2 := res_eq_spec cfg' (comps t) (comps t).length (Nat.le_refl _)
+  have hp := res_attachPerm hls cfg.rootLevel cfg.rootAppenders cfg'.rootAppenders hr (comps t)
+  rw [hl] at h1 hp
+  rw [h1] at hp
+  rw [h2] at hp
+  simp only at hp
+  simp only [specDeliver, specLevel_eq, effective, hp.1]
+  split
+  · exact hp.2
+  · exact List.Perm.refl _
+
 /-- An appender that returns an error does not starve the others: whatever set of appenders fails, every
 attachment along the chain is still called exactly once, in the same order, and exactly the failing ones
 are reported to the error handler. -/
@@ -103,12 +200,21 @@ theorem C01_failing_appender_isolated (cfg : Config) (hv : Valid cfg) (fails : N
   rfl
 
 /-- The Rust branch "child exists and `rest` is empty" (`child.add("")`) is never taken while building
-the tree of a valid configuration. -/
+the tree of a valid configuration. The flag is the one returned by the model's `add` itself (the function that
+builds the tree), accumulated over the insertion loop. Model-only: the real code offers no way to observe it. -/
 theorem C01_weird_branch_dead (cfg : Config) (hv : Valid cfg) : buildWeird cfg = some false := by
   obtain ⟨_, _, hw, _⟩ := build_spec cfg hv
   exact hw
 
-/-- `Logger::new` does not panic on a valid configuration. -/
+/-- The fuel that makes `add` structurally recursive is inert, for every tree and every path (valid or not):
+more fuel than `add` passes gives the same tree and the same flag, so the fuel-exhausted arm is never the answer. -/
+theorem C01_add_fuel_inert (node : Node) (path : Name) (apps : List Nat) (additive : Bool) (level : Nat)
+    (f : Nat) (hf : path.length + node.depth + 1 ≤ f) :
+    addAux f node path apps additive level = add node path apps additive level :=
+  addAux_fuel f node path apps additive level hf
+
+/-- `Logger::new` does not panic on a valid configuration (the `appender_map[..]` look-ups succeed); that no
+`appenders[idx]` index is out of range at delivery is part of `C01_deliver_eq_spec` (`deliver` is `some`). -/
 theorem C01_build_total (cfg : Config) (hv : Valid cfg) : (build cfg).isSome = true := by
   obtain ⟨_, hb, _⟩ := build_spec cfg hv
   simp [hb]
@@ -133,6 +239,15 @@ example : deliver exCfg ['a', ':', ':', 'b', ':', ':', 'a', ':', ':', 'z'] 4 = s
 example : deliver exCfg ['a', ':', ':', 'b', ':', ':', 'c'] 1 = some [['y']] := by decide
 /-- test on a sample: `a::bb` is not below `a::b`; textual prefix `a::b` of `a::bb::q` plays no role -/
 example : deliver exCfg ['a', ':', ':', 'b', 'b', ':', ':', 'q'] 5 = some [['y']] := by decide
+/-- test on a sample: the walk of `a::b::a::z` is [a::b::a, a] — the implied `a::b` is transparent, the
+non-additive `a` ends it before the root -/
+example : (visited exCfg 4 (effective exCfg ['a', ':', ':', 'b', ':', ':', 'a', ':', ':', 'z'])).map
+    (fun o => o.map (·.name)) = [some ['a', ':', ':', 'b', ':', ':', 'a'], some ['a']] := by decide
+/-- test on a sample: `x` is attached twice along that walk, `r` never -/
+example : (specDeliver exCfg ['a', ':', ':', 'b', ':', ':', 'a', ':', ':', 'z'] 4).count ['x'] = 2 ∧
+    (specDeliver exCfg ['a', ':', ':', 'b', ':', ':', 'a', ':', ':', 'z'] 4).count ['r'] = 0 := by decide
+/-- test on a sample: stray colons — `a:::b` splits at the leftmost `::` into `a` and `:b` -/
+example : comps ['a', ':', ':', ':', 'b'] = [['a'], [':', 'b']] := by decide
 /-- test on a sample: unrelated target goes to the root, gated by the root's threshold -/
 example : deliver exCfg ['a', 'b'] 3 = some [['r']] ∧ deliver exCfg ['a', 'b'] 4 = some [] := by decide
 
